@@ -36,6 +36,7 @@ fn family(name: &str) -> GenCfg {
         setgen: None,
         panics: false,
         second_type: false,
+        aba: false,
     };
     match name {
         "mixed" => base,
@@ -63,6 +64,8 @@ fn family(name: &str) -> GenCfg {
         "helpiso" => GenCfg { threads: (3, 4), containers: 2, strategy: 1, w: [9, 4, 4, 1, 5, 3, 2, 3, 1], ops: (3, 7), ..base },
         // two pointee types sharing the pool of addresses: values die young so that addresses move
         // from one type to the other while readers hold stale addresses
+        // one rcu/cas caller against writers that put the very same pointer back (A-B-A inside the call)
+        "rcuaba" => GenCfg { threads: (2, 3), aba: true, with_null: false, ..base },
         "xtype" => GenCfg { threads: (3, 4), second_type: true, w: [9, 3, 4, 1, 7, 3, 1, 1, 1], ops: (3, 7), with_null: false, ..base },
         other => panic!("unknown family {}", other),
     }
